@@ -89,14 +89,14 @@ class UnionSchemaGen:
         fs = []
         for nm in rng.sample(self.POOL, rng.choice([0, 1, 2, 2, 3, 4])):
             r = rng.random()
-            if r < 0.55:
+            if r < 0.5:
                 fs.append({"name": nm, "type": ["null", rng.choice(["int", "string"])], "default": None})
-            elif r < 0.8:
+            elif r < 0.77:
                 fs.append({"name": nm, "type": rng.choice(["int", "string", "long"])})
-            elif r < 0.9:
+            elif r < 0.87:
                 fs.append({"name": nm, "type": "int", "default": rng.choice([0, 7])})
             else:
-                fs.append({"name": nm, "type": ["null", "int"]})       # absent allowed without default
+                fs.append({"name": nm, "type": ["null", rng.choice(["int", "string"])]})   # absent allowed without default (not in strict mode)
         at["fields"] = fs
         return at
 
@@ -107,6 +107,29 @@ class UnionSchemaGen:
                                  {"type": "array", "items": "int"}, "long"], rng.choice([0, 0, 1, 2])):
             bs.insert(rng.randrange(len(bs) + 1), extra)
         return bs
+
+    def records_optional(self):
+        """records that differ only by optional (nullable, default-less) fields: R_k = the base fields + k optional ones; a
+        datum with exactly the base fields fits all of them non-strictly and only the smallest one in strict mode"""
+        rng = self.rng
+        base = [{"name": nm, "type": rng.choice(["int", "string", "long"])} for nm in rng.sample(self.POOL, rng.choice([1, 2]))]
+        rest = [nm for nm in self.POOL if nm not in [f["name"] for f in base]]
+        recs = []
+        for k in sorted(rng.sample([0, 1, 2, 3], rng.choice([2, 3]))):
+            at = self.fullname(self.fresh("R"))
+            at["type"] = "record"
+            opt = [{"name": nm, "type": ["null", rng.choice(["int", "string"])]} for nm in rest[:k]]
+            if opt and rng.random() < 0.3:
+                opt[-1]["default"] = None
+            fs = base + opt
+            if rng.random() < 0.3:
+                rng.shuffle(fs)
+            at["fields"] = json.loads(json.dumps(fs))
+            recs.append(at)
+        rng.shuffle(recs)
+        if rng.random() < 0.3:
+            recs.insert(rng.randrange(len(recs) + 1), rng.choice(["null", "string"]))
+        return recs
 
     def named_mix(self):
         rng = self.rng
@@ -136,9 +159,9 @@ class UnionSchemaGen:
         return bs
 
     def union(self):
-        fam = self.rng.choice(["prim", "prim", "numeric", "numeric", "records", "records", "records", "named", "containers"])
+        fam = self.rng.choice(["prim", "prim", "numeric", "numeric", "records", "records", "records", "records-optional", "records-optional", "records-optional", "named", "containers"])
         return {"prim": self.prim_mix, "numeric": self.numeric_mix, "records": self.records_overlap,
-                "named": self.named_mix, "containers": self.containers}[fam](), fam
+                "records-optional": self.records_optional, "named": self.named_mix, "containers": self.containers}[fam](), fam
 
     def refs(self):
         """records defined once and referred to by name from several unions"""
@@ -355,6 +378,52 @@ def writable_x(v, s, named, tuple_notation=True):
     return CC.conforms(v, s, named, tuple_notation)
 
 
+def strict_claim(v, s, named, tn, allow_default):
+    """the statement 'everything validate accepts the writers encode', for a writer with strict=True (allow_default False) or
+    strict_allow_default=True: True when the datum conforms in strict mode AND, at every record the statement's union rule
+    sends it to, it has exactly the record's fields (strict) / lacks only fields that have a default (strict_allow_default).
+    A '-type' entry counts as an extra field for these writers, so hinted dicts are outside the claim."""
+    strict = not allow_default
+    conf = lambda x, b: conforms_x(x, b, named, tn, strict)
+    s = resolve(s, named)
+    if isinstance(s, list):
+        if isinstance(v, tuple) and tn:
+            if len(v) != 2:
+                return False
+            for b in s:
+                if branch_label(b) == v[0]:
+                    return strict_claim(v[1], b, named, tn, allow_default)
+            return False
+        if isinstance(v, dict) and "-type" in v:
+            return False
+        allowed = expected_indices(v, s, named, tn, conf)
+        if not allowed:
+            return False
+        return all(strict_claim(v, s[k], named, tn, allow_default) for k in allowed)
+    t = s if isinstance(s, str) else s["type"]
+    if t == "array":
+        return isinstance(v, (list, tuple, bytes, bytearray)) and all(strict_claim(x, s["items"], named, tn, allow_default) for x in v)
+    if t == "map":
+        return isinstance(v, dict) and all(isinstance(k, str) for k in v) and \
+            all(strict_claim(x, s["values"], named, tn, allow_default) for x in v.values())
+    if t in ("record", "error"):
+        if not isinstance(v, dict):
+            return False
+        names = [f["name"] for f in s["fields"]]
+        if any(k not in names for k in v):
+            return False
+        for f in s["fields"]:
+            if f["name"] in v:
+                if not strict_claim(v[f["name"]], f["type"], named, tn, allow_default):
+                    return False
+            elif not allow_default or "default" not in f:
+                return False
+            elif not strict_claim(f["default"], f["type"], named, tn, allow_default):
+                return False
+        return True
+    return CC.conforms(v, s, named, tn)
+
+
 def is_named_branch(b, named):
     return (isinstance(b, str) and b not in PRIMS) or (isinstance(b, dict) and b["type"] in NAMED)
 
@@ -391,9 +460,11 @@ def shared(v, rb):
     return len(set(f["name"] for f in rb["fields"]) & set(v)) if isinstance(v, dict) else 0
 
 
-def expected_indices(v, bs, named, tn):
-    """indices the statement allows for datum v under union bs (no tuple hint): a set, or None for 'must raise'"""
-    conf = [k for k, b in enumerate(bs) if CC.conforms(v, b, named, tn)]
+def expected_indices(v, bs, named, tn, conf_fn=None):
+    """indices the statement allows for datum v under union bs (no tuple hint): a set, or None for 'must raise'.
+    conf_fn(v, branch) = the conformance notion in force (default: the documented mapping; strict mode for a strict writer)"""
+    conf_fn = conf_fn or (lambda x, b: CC.conforms(x, b, named, tn))
+    conf = [k for k, b in enumerate(bs) if conf_fn(v, b)]
     if isinstance(v, dict) and v.get("-type") is not None:      # a '-type' hint selects exactly the named record branch
         conf = [k for k in conf if tname(bs[k], named) in ("record", "error") and resolve(bs[k], named)["name"] == v["-type"]]
     if not conf:
